@@ -404,12 +404,12 @@ def conv_convexity_volume(r, tier, seed):
 
 
 # ---------------------------------------------------------------- overrides and histories
-@bound('domains 4x3 (kernel 3x3, radius 1.5) and 3x2x3 (kernel 3x3x3): override_values with a slice tuple, an integer-array tuple and a boolean mask; override_padded_values with '
+@bound('domains 4x3 (kernels 3x5 and radius 1.5) and 3x2x3 (kernels 5x3x1, 1x3x5; unequal pads per axis): override_values with a slice tuple, an integer-array tuple and a boolean mask; override_padded_values with '
        'a padded-index box; two overrides on overlapping regions (the later wins); boundary rules all-symmetric and one mixed combination with constants; response sequence x1, x2, x1, '
        'override added, x1, caller overwrites the returned array, x1; weights array changed by the caller after construction')
 def conv_overrides_histories(r, tier, seed):
     rng = np.random.default_rng(seed + 25)
-    for g, W in (((4, 3, 0), rand_kernel(rng, (3, 3, 1), 'signed')), ((3, 2, 3), rand_kernel(rng, (3, 3, 3), 'signed')), ((4, 3, 0), None)):
+    for g, W in (((4, 3, 0), rand_kernel(rng, (3, 5, 1), 'signed')), ((3, 2, 3), rand_kernel(rng, (5, 3, 1), 'signed')), ((3, 2, 3), rand_kernel(rng, (1, 3, 5), 'signed')), ((4, 3, 0), None)):
         n = shape3(g)
         d = pym.DomainDefinition(*g)
         Wref = cone_kernel(g, 1.5)[1:-1, 1:-1, :] if W is None else W   # radius 1.5: one element each side has non-zero weight
